@@ -17,7 +17,7 @@ Definition op_ok (mid : list Z) (x : op) : Prop :=
 Lemma save_wf f s fr o f' :
   id3f_wf f = true -> id3f_parse f = Ok s -> frames_ok (o_v2 o) fr = true -> v1_hyp (i_mid s) o ->
   id3f_save f fr o = Ok f' ->
-  let r := o_cb o (tag_size s - (zlen fr + 10)) (zlen f) in
+  let r := o_cb o (tag_size s - (zlen fr + 10)) (zlen f - tag_size s) in
   0 <= r /\
   id3f_parse f' = Ok (mkI (Some (mkT (o_v2 o) (10 + zlen fr + r) fr r)) (i_mid s) (v1_after (o_v1 o) (o_v1bytes o) (i_v1 s))) /\
   id3f_wf f' = true /\
@@ -26,13 +26,13 @@ Proof.
   intros WF P FO Hh H r.
   destruct (save_shape _ _ _ _ WF H) as (s0 & P0 & V & R & W & bs & T & L & S7 & SS & Sh).
   assert (s0 = s) by congruence. subst s0. fold r in R, W, T, SS, Sh. specialize (Sh Hh).
-  destruct (wf_inv _ WF) as (s1 & P1 & Lm & NI & SM & Fm & Fv).
+  destruct (wf_inv _ WF) as (s1 & P1 & NI & SM & Fm & Fv).
   assert (s1 = s) by congruence. subst s1.
   pose proof (v1_after_fits _ _ _ Hh Fv) as Fv'.
   assert (PB := parse_built (o_v2 o) bs fr r (i_mid s) _ V L S7 SS R FO SM Fv').
   rewrite <- Sh in PB.
   split; [exact R|]. split; [exact PB|]. split.
-  - eapply wf_intro; [exact PB| | | | |]; cbn [i_mid i_v1]; assumption.
+  - eapply wf_intro; [exact PB| | | |]; cbn [i_mid i_v1]; assumption.
   - rewrite Sh. rewrite !zlen_app. rewrite render_tag_len by assumption. lia.
 Qed.
 
@@ -53,31 +53,27 @@ Proof.
 Qed.
 
 (* without any hypothesis on the file: the ID3v1 step touches at most the last 128 bytes (or appends) ... *)
-Lemma index_of_bounds pat : forall l i, index_of pat l = Some i -> 0 <= i <= zlen l.
-Proof.
-  induction l as [|x l IH]; intros i H; [discriminate|].
-  cbn [index_of] in H. rewrite zlen_cons. pose proof (zlen_nonneg l).
-  destruct (starts_with pat (x :: l)); [inversion H; lia|].
-  destruct (index_of pat l) as [j|]; [|discriminate]. specialize (IH j eq_refl). inversion H; lia.
-Qed.
-Lemma find_id3v1_bounds g n : find_id3v1 g = Some n -> 124 <= n <= 128 /\ n <= zlen g.
+Lemma find_id3v1_bounds st g n : find_id3v1 st g = Some n -> 124 <= n <= 128 /\ n <= zlen g.
 Proof.
   unfold find_id3v1, find_v1_in. intros H.
-  destruct (index_of M_TAG (zdrop (zlen g - 131) g)) as [idx|] eqn:E; [|discriminate].
+  set (data := zdrop (zlen g - 131) g) in *.
+  destruct ((32 <=? zlen data) && starts_with M_APE (zdrop (zlen data - 32) data)); [discriminate|].
+  destruct (index_of M_TAG data) as [idx|] eqn:E; [|discriminate].
   apply index_of_bounds in E.
-  destruct (match index_of M_APE (zdrop (zlen g - 131) g) with Some ape_idx => idx =? ape_idx + 3 | None => false end); [discriminate|].
-  destruct ((128 <? zlen (zdrop (zlen g - 131) g) - idx) || (zlen (zdrop (zlen g - 131) g) - idx <? 124)) eqn:C; [discriminate|].
+  destruct (match index_of M_APE data with Some ape_idx => idx =? ape_idx + 3 | None => false end); [discriminate|].
+  destruct (zlen g - zlen data + idx <? st); [discriminate|].
+  destruct ((128 <? zlen data - idx) || (zlen data - idx <? 124)) eqn:C; [discriminate|].
   inversion H; subst n. apply orb_false_iff in C as [C1 C2].
-  assert (zlen (zdrop (zlen g - 131) g) <= zlen g).
-  { pose proof (zlen_nonneg g). destruct (Z_le_gt_dec (zlen g - 131) 0).
+  assert (zlen data <= zlen g).
+  { subst data. pose proof (zlen_nonneg g). destruct (Z_le_gt_dec (zlen g - 131) 0).
     - rewrite zdrop_neg by lia. lia.
     - rewrite zlen_zdrop by lia. lia. }
   lia.
 Qed.
-Lemma save_v1_frame g mode vb : ztake (zlen g - 128) (save_v1 g mode vb) = ztake (zlen g - 128) g.
+Lemma save_v1_frame g mode vb st : ztake (zlen g - 128) (save_v1 g mode vb st) = ztake (zlen g - 128) g.
 Proof.
   unfold save_v1. pose proof (zlen_nonneg g).
-  destruct (find_id3v1 g) as [n|] eqn:E.
+  destruct (find_id3v1 st g) as [n|] eqn:E.
   - apply find_id3v1_bounds in E.
     assert (A : forall tl, ztake (zlen g - 128) (ztake (zlen g - n) g ++ tl) = ztake (zlen g - 128) g).
     { intros tl. rewrite ztake_app_l by (rewrite zlen_ztake by lia; lia). rewrite ztake_ztake. f_equal. lia. }
@@ -144,21 +140,21 @@ Proof.
   split; [exact W|]. rewrite PB. reflexivity.
 Qed.
 
-Lemma wf_payload mid : 131 <= zlen mid -> starts_with M_ID3 mid = false -> strict_v1 mid = false ->
-  find_id3v1 mid = None -> id3f_wf mid = true /\ mid_of mid = mid.
+Lemma wf_payload mid : starts_with M_ID3 mid = false -> strict_v1 mid = false ->
+  find_id3v1 0 mid = None -> id3f_wf mid = true /\ mid_of mid = mid.
 Proof.
-  intros A B C D. pose proof (parse_payload _ B C) as P. split.
-  - eapply wf_intro; [exact P| | | | |]; cbn [i_mid i_v1]; try assumption. intros v E; discriminate.
+  intros B C D. pose proof (parse_payload _ B C) as P. split.
+  - eapply wf_intro; [exact P| | | |]; cbn [i_mid i_v1]; try assumption. intros v E; discriminate.
   - unfold mid_of. rewrite P. reflexivity.
 Qed.
 
 Theorem c03_delete f f' : id3f_wf f = true -> id3f_delete f = Ok f' ->
   id3f_wf f' = true /\ mid_of f' = mid_of f /\ f' = mid_of f.
 Proof.
-  intros WF H. destruct (wf_inv _ WF) as (s & P & Lm & NI & SM & Fm & _).
+  intros WF H. destruct (wf_inv _ WF) as (s & P & NI & SM & Fm & _).
   rewrite (c02_delete _ _ WF P) in H. inversion H; subst f'. clear H.
   unfold mid_of at 2 3. rewrite P.
-  destruct (wf_payload _ Lm NI SM Fm) as [A B]. auto.
+  destruct (wf_payload _ NI SM Fm) as [A B]. auto.
 Qed.
 
 Lemma fold_step_raise ops e : fold_left step ops (Raise e) = Raise e.
@@ -197,15 +193,15 @@ Theorem c08_delete f s : id3f_wf f = true -> id3f_parse f = Ok s ->
   id3f_delete f = Ok (i_mid s) /\
   id3f_parse (i_mid s) = Ok (mkI None (i_mid s) None) /\
   id3f_load (i_mid s) = Ok None /\
-  starts_with M_ID3 (i_mid s) = false /\ find_id3v1 (i_mid s) = None /\
+  starts_with M_ID3 (i_mid s) = false /\ find_id3v1 0 (i_mid s) = None /\
   id3f_delete (i_mid s) = Ok (i_mid s) /\
   zlen f = tag_size s + zlen (i_mid s) + v1_size s /\
   id3f_wf (i_mid s) = true.
 Proof.
-  intros WF P. destruct (wf_inv _ WF) as (s0 & P0 & Lm & NI & SM & Fm & Fv).
+  intros WF P. destruct (wf_inv _ WF) as (s0 & P0 & NI & SM & Fm & Fv).
   assert (s0 = s) by congruence. subst s0.
   pose proof (parse_payload _ NI SM) as PP.
-  destruct (wf_payload _ Lm NI SM Fm) as [WM _].
+  destruct (wf_payload _ NI SM Fm) as [WM _].
   split; [apply c02_delete; assumption|]. split; [exact PP|]. split; [unfold id3f_load; rewrite PP; reflexivity|].
   split; [exact NI|]. split; [exact Fm|]. split.
   - pose proof (c02_delete _ _ WM PP) as D. exact D.
@@ -226,14 +222,14 @@ Theorem c08_retag f d fr o :
 Proof.
   intros WF D FO V Hh R W. destruct (c03_delete _ _ WF D) as (WD & _ & Ed).
   destruct (wf_inv _ WD) as (sd & Pd & _).
-  destruct (wf_inv _ WF) as (s & P & Lm & NI & SM & Fm & _).
+  destruct (wf_inv _ WF) as (s & P & NI & SM & Fm & _).
   assert (Esd : sd = mkI None d None).
   { unfold mid_of in Ed. rewrite P in Ed. subst d. pose proof (parse_payload _ NI SM). congruence. }
   subst sd.
   assert (Md : mid_of d = d) by (unfold mid_of; rewrite Pd; reflexivity).
-  destruct (save_v2_ok d _ fr o Pd V R W) as [g Eg].
-  exists (save_v1 g (o_v1 o) (o_v1bytes o)).
-  assert (Es : id3f_save d fr o = Ok (save_v1 g (o_v1 o) (o_v1bytes o))) by (unfold id3f_save; rewrite Eg; reflexivity).
+  destruct (save_v2_ok d _ fr o Pd V) as (g & n & Eg); cbn [tag_size i_tag]; try (rewrite Z.sub_0_r; assumption).
+  exists (save_v1 g (o_v1 o) (o_v1bytes o) n).
+  assert (Es : id3f_save d fr o = Ok (save_v1 g (o_v1 o) (o_v1bytes o) n)) by (unfold id3f_save; rewrite Eg; reflexivity).
   split; [exact Es|]. rewrite <- Md in Hh.
   split; [apply (c01_roundtrip _ _ _ _ WD FO Hh Es)|].
   destruct (c03_save _ _ _ _ WD FO Hh Es) as [A B]. split; [congruence|exact A].
@@ -244,7 +240,7 @@ Qed.
 Theorem c09_callback f s fr o f' :
   id3f_wf f = true -> id3f_parse f = Ok s -> frames_ok (o_v2 o) fr = true -> v1_hyp (i_mid s) o ->
   id3f_save f fr o = Ok f' ->
-  let r := o_cb o (tag_size s - (zlen fr + 10)) (zlen f) in
+  let r := o_cb o (tag_size s - (zlen fr + 10)) (zlen f - tag_size s) in
   0 <= r /\ exists s', id3f_parse f' = Ok s' /\ id3f_padding s' = r /\ tag_size s' = 10 + zlen fr + r.
 Proof.
   intros WF P FO Hh H r. destruct (save_wf _ _ _ _ _ WF P FO Hh H) as (R & PB & _). fold r in R, PB.
@@ -253,34 +249,35 @@ Qed.
 
 Theorem c09_negative_rejected f s fr o :
   id3f_parse f = Ok s -> (o_v2 o = 3 \/ o_v2 o = 4) ->
-  o_cb o (tag_size s - (zlen fr + 10)) (zlen f) < 0 -> id3f_save f fr o = Raise EMutagen.
+  o_cb o (tag_size s - (zlen fr + 10)) (zlen f - tag_size s) < 0 -> id3f_save f fr o = Raise EMutagen.
 Proof.
-  intros P V R. destruct (parse_dec _ _ P) as (PT & _).
+  intros P V R. destruct (parse_dec _ _ P) as (PT & B & _).
   unfold id3f_save, id3f_save_v2. rewrite (header_of_parse _ _ _ PT).
   assert (O : old_size_of (option_map t_size (i_tag s)) = tag_size s).
   { unfold tag_size. destruct (i_tag s); reflexivity. }
-  rewrite O. unfold prepare_data.
+  rewrite O. unfold prepare_data. cbv zeta.
   assert (V' : (o_v2 o =? 3) || (o_v2 o =? 4) = true) by (destruct V as [V|V]; rewrite V; reflexivity).
   rewrite V'. cbn [negb].
-  assert (R' : (o_cb o (tag_size s - (zlen fr + 10)) (zlen f) <? 0) = true) by lia. rewrite R'. reflexivity.
+  replace (Z.max 0 (zlen f - 0 - tag_size s)) with (zlen f - tag_size s) by lia.
+  assert (R' : (o_cb o (tag_size s - (zlen fr + 10)) (zlen f - tag_size s) <? 0) = true) by lia. rewrite R'. reflexivity.
 Qed.
 
 (* returning info.padding (>= 0): the ID3v2 step keeps the file size and the offset of every byte behind the tag *)
-Theorem c09_keep f s fr o g :
-  id3f_parse f = Ok s -> id3f_save_v2 f fr o = Ok g ->
-  o_cb o (tag_size s - (zlen fr + 10)) (zlen f) = tag_size s - (zlen fr + 10) ->
-  0 <= tag_size s - (zlen fr + 10) /\ zlen g = zlen f /\
+Theorem c09_keep f s fr o g n :
+  id3f_parse f = Ok s -> id3f_save_v2 f fr o = Ok (g, n) ->
+  o_cb o (tag_size s - (zlen fr + 10)) (zlen f - tag_size s) = tag_size s - (zlen fr + 10) ->
+  0 <= tag_size s - (zlen fr + 10) /\ zlen g = zlen f /\ n = tag_size s /\
   zdrop (tag_size s) g = zdrop (tag_size s) f /\
   (forall i, tag_size s <= i < zlen f -> znth i g = znth i f).
 Proof.
-  intros P H K. destruct (save_v2_shape _ _ _ _ _ P H) as (V & R & W & bs & T & L & S7 & SS & G & _).
+  intros P H K. destruct (save_v2_shape _ _ _ _ _ _ P H) as (V & R & W & bs & T & L & S7 & SS & En & G & _).
   rewrite K in *. destruct (parse_dec _ _ P) as (_ & B & _).
   set (data := render_tag (o_v2 o) bs fr (tag_size s - (zlen fr + 10))) in *.
   assert (Ld : zlen data = tag_size s) by (subst data; rewrite render_tag_len by assumption; lia).
   rewrite <- Ld in G at 1.
   destruct (splice_same_size f 0 data ltac:(lia) ltac:(lia)) as (A1 & _ & A3).
   rewrite <- G in A1, A3. rewrite Z.add_0_l, Ld in A3.
-  split; [exact R|]. split; [exact A1|]. split; [exact A3|].
+  split; [exact R|]. split; [exact A1|]. split; [lia|]. split; [exact A3|].
   intros i Hi. replace i with (tag_size s + (i - tag_size s)) by lia.
   rewrite <- !znth_zdrop by lia. rewrite A3. reflexivity.
 Qed.
@@ -289,7 +286,7 @@ Qed.
 Theorem c09_keep_size f s fr o f' :
   id3f_wf f = true -> id3f_parse f = Ok s -> frames_ok (o_v2 o) fr = true -> v1_hyp (i_mid s) o ->
   id3f_save f fr o = Ok f' ->
-  o_cb o (tag_size s - (zlen fr + 10)) (zlen f) = tag_size s - (zlen fr + 10) ->
+  o_cb o (tag_size s - (zlen fr + 10)) (zlen f - tag_size s) = tag_size s - (zlen fr + 10) ->
   zlen f' - zlen (optb (v1_after (o_v1 o) (o_v1bytes o) (i_v1 s))) = zlen f - zlen (optb (i_v1 s)).
 Proof.
   intros WF P FO Hh H K. destruct (save_wf _ _ _ _ _ WF P FO Hh H) as (R & _ & _ & Lf). rewrite K in Lf.
@@ -300,28 +297,28 @@ Proof.
 Qed.
 
 (* ------------------------------------------------------------------ C07 *)
-(* a second save is the identity whenever the callback, offered the padding now in the file, returns it *)
+(* a second save is the identity whenever the callback, offered the padding now in the file (and the size of what lies
+   behind the tag now), returns it *)
 Theorem c07_second_save f fr o f' s' :
   id3f_wf f = true -> frames_ok (o_v2 o) fr = true -> v1_hyp (mid_of f) o ->
   id3f_save f fr o = Ok f' -> id3f_parse f' = Ok s' ->
-  o_cb o (id3f_padding s') (zlen f') = id3f_padding s' ->
+  o_cb o (id3f_padding s') (zlen f' - tag_size s') = id3f_padding s' ->
   id3f_save f' fr o = Ok f'.
 Proof.
-  intros WF FO Hh H P' K. destruct (wf_inv _ WF) as (s & P & Lm & NI & SM & Fm & Fv).
+  intros WF FO Hh H P' K. destruct (wf_inv _ WF) as (s & P & NI & SM & Fm & Fv).
   unfold mid_of in Hh. rewrite P in Hh.
   destruct (save_shape _ _ _ _ WF H) as (s0 & P0 & V & R & W & bs & T & L & S7 & SS & Sh).
   assert (s0 = s) by congruence. subst s0. specialize (Sh Hh).
   destruct (save_wf _ _ _ _ _ WF P FO Hh H) as (_ & PB & WF' & _).
-  set (r := o_cb o (tag_size s - (zlen fr + 10)) (zlen f)) in *.
+  set (r := o_cb o (tag_size s - (zlen fr + 10)) (zlen f - tag_size s)) in *.
   assert (s' = mkI (Some (mkT (o_v2 o) (10 + zlen fr + r) fr r)) (i_mid s) (v1_after (o_v1 o) (o_v1bytes o) (i_v1 s))) by congruence.
-  subst s'. cbn [id3f_padding i_tag t_pad] in K.
+  subst s'. cbn [id3f_padding tag_size i_tag t_pad t_size] in K.
   (* the second save *)
-  assert (Hh' : v1_hyp (i_mid (mkI (Some (mkT (o_v2 o) (10 + zlen fr + r) fr r)) (i_mid s) (v1_after (o_v1 o) (o_v1bytes o) (i_v1 s)))) o) by exact Hh.
-  destruct (save_v2_ok f' _ fr o PB) as [g2 E2]; cbn [tag_size i_tag t_size].
+  destruct (save_v2_ok f' _ fr o PB) as (g2 & n2 & E2); cbn [tag_size i_tag t_size].
   { exact V. }
   { replace (10 + zlen fr + r - (zlen fr + 10)) with r by lia. rewrite K. exact R. }
   { replace (10 + zlen fr + r - (zlen fr + 10)) with r by lia. rewrite K. exact W. }
-  assert (Es : id3f_save f' fr o = Ok (save_v1 g2 (o_v1 o) (o_v1bytes o))) by (unfold id3f_save; rewrite E2; reflexivity).
+  assert (Es : id3f_save f' fr o = Ok (save_v1 g2 (o_v1 o) (o_v1bytes o) n2)) by (unfold id3f_save; rewrite E2; reflexivity).
   destruct (save_shape _ _ _ _ WF' Es) as (s2 & P2 & _ & _ & _ & bs2 & T2 & _ & _ & _ & Sh2).
   assert (s2 = mkI (Some (mkT (o_v2 o) (10 + zlen fr + r) fr r)) (i_mid s) (v1_after (o_v1 o) (o_v1bytes o) (i_v1 s))) by congruence.
   subst s2. cbn [tag_size i_tag t_size i_mid i_v1] in *.
@@ -330,7 +327,37 @@ Proof.
   rewrite Es. f_equal. rewrite Sh2, Sh. rewrite v1_after_idem. reflexivity.
 Qed.
 
-(* default policy: padding of moderate size is kept, so the second save is the identity *)
+(* the default policy keeps its own answer when the size of the data behind the tag does not shrink *)
+Ltac Zify.zify_post_hook ::= Z.to_euclidean_division_equations.
+Lemma default_stable_grow p s s' : 0 <= s <= s' ->
+  get_default_padding (get_default_padding p s) s' = get_default_padding p s.
+Proof.
+  intros Hs. unfold get_default_padding; cbv zeta.
+  repeat match goal with |- context [if ?c then _ else _] => destruct c eqn:? end; lia.
+Qed.
+Ltac Zify.zify_post_hook ::= idtac.
+
+(* default policy: saving a second time leaves the file byte-identical, provided the first save did not remove an
+   ID3v1 tag (which would shrink the size the policy is fed) *)
+Theorem c07_default_idempotent f s fr o f' :
+  id3f_wf f = true -> id3f_parse f = Ok s -> frames_ok (o_v2 o) fr = true -> v1_hyp (i_mid s) o ->
+  o_cb o = get_default_padding ->
+  zlen (optb (i_v1 s)) <= zlen (optb (v1_after (o_v1 o) (o_v1bytes o) (i_v1 s))) ->
+  id3f_save f fr o = Ok f' -> id3f_save f' fr o = Ok f'.
+Proof.
+  intros WF P FO Hh Cb Hv H.
+  destruct (save_wf _ _ _ _ _ WF P FO Hh H) as (R & PB & _ & Lf).
+  assert (Hh' : v1_hyp (mid_of f) o) by (unfold mid_of; rewrite P; exact Hh).
+  apply (c07_second_save f fr o f' _ WF FO Hh' H PB).
+  cbn [id3f_padding tag_size i_tag t_pad t_size].
+  destruct (parse_dec _ _ P) as (_ & B & _ & Ff & _).
+  assert (Lff : zlen f = tag_size s + zlen (i_mid s) + zlen (optb (i_v1 s))).
+  { rewrite Ff at 1. rewrite !zlen_app, zlen_ztake by lia. lia. }
+  rewrite Cb in *. apply default_stable_grow.
+  pose proof (zlen_nonneg (i_mid s)). pose proof (zlen_nonneg (optb (i_v1 s))). lia.
+Qed.
+
+(* default policy: padding of moderate size is kept whatever happens to the ID3v1 tag *)
 Theorem c07_default_moderate f fr o f' s' :
   id3f_wf f = true -> frames_ok (o_v2 o) fr = true -> v1_hyp (mid_of f) o ->
   o_cb o = get_default_padding ->
@@ -341,25 +368,11 @@ Proof.
   rewrite Cb. destruct (wf_inv _ WF) as (s & P & _).
   unfold mid_of in Hh. rewrite P in Hh.
   destruct (save_wf _ _ _ _ _ WF P FO Hh H) as (R & PB & _).
-  assert (Ep : id3f_padding s' = o_cb o (tag_size s - (zlen fr + 10)) (zlen f)).
-  { rewrite PB in P'. inversion P'. reflexivity. }
-  apply default_keeps_moderate; [apply zlen_nonneg|]. lia.
-Qed.
-
-(* default policy, same file size after the first save (e.g. it fitted in place): idempotent by default_idempotent *)
-Theorem c07_default_same_size f fr o f' s' :
-  id3f_wf f = true -> frames_ok (o_v2 o) fr = true -> v1_hyp (mid_of f) o ->
-  o_cb o = get_default_padding ->
-  id3f_save f fr o = Ok f' -> id3f_parse f' = Ok s' -> zlen f' = zlen f ->
-  id3f_save f' fr o = Ok f'.
-Proof.
-  intros WF FO Hh Cb H P' M. apply (c07_second_save f fr o f' s'); try assumption.
-  destruct (wf_inv _ WF) as (s & P & _).
-  unfold mid_of in Hh. rewrite P in Hh.
-  destruct (save_wf _ _ _ _ _ WF P FO Hh H) as (R & PB & _).
-  assert (Ep : id3f_padding s' = o_cb o (tag_size s - (zlen fr + 10)) (zlen f)).
-  { rewrite PB in P'. inversion P'. reflexivity. }
-  rewrite Ep, M, Cb. apply default_idempotent. apply zlen_nonneg.
+  assert (Es : s' = mkI (Some (mkT (o_v2 o) (10 + zlen fr + o_cb o (tag_size s - (zlen fr + 10)) (zlen f - tag_size s)) fr
+                  (o_cb o (tag_size s - (zlen fr + 10)) (zlen f - tag_size s)))) (i_mid s) (v1_after (o_v1 o) (o_v1bytes o) (i_v1 s)))
+    by congruence.
+  destruct (parse_dec _ _ P') as (_ & B' & _).
+  apply default_keeps_moderate; [lia|]. subst s'. cbn [id3f_padding i_tag t_pad] in *. lia.
 Qed.
 
 (* load + save unchanged (same ID3v2 version) is lossless: the frame bytes read back are the frame bytes read *)
@@ -375,14 +388,13 @@ Proof.
   unfold id3f_load, mid_of. rewrite PB, P, Et. split; reflexivity.
 Qed.
 
-(* the default policy is fed a file size that includes the old tag, so it is NOT idempotent in general:
-   after a first default save of a file with p0 bytes of free tag space and total size s0 the padding is
-   r = default(p0, s0) and the file has s1 = s0 - p0 + r bytes; the second save asks default(r, s1) *)
-Theorem c07_default_not_idempotent_arith :
-  exists p0 s0, 0 <= p0 <= s0 /\
+(* the hypothesis "no ID3v1 tag removed by the first save" is necessary: the policy is fed the size of everything behind
+   the ID3v2 tag, ID3v1 tag included; removing it (v1=0) shrinks that size by 128 and can move the policy's upper
+   threshold below the padding that the first save kept *)
+Theorem c07_default_v1_removed_not_idempotent_arith :
+  exists p0 s0, 0 <= p0 /\ 128 <= s0 /\
     let r := get_default_padding p0 s0 in
-    let s1 := s0 - p0 + r in
-    0 <= r /\ get_default_padding r s1 <> r.
+    r = p0 /\ get_default_padding r (s0 - 128) <> r.
 Proof.
-  exists 12000000, 12000527. split; [lia|]. vm_compute. split; [discriminate|discriminate].
+  exists 10250, 1000. split; [lia|]. split; [lia|]. vm_compute. split; [reflexivity|discriminate].
 Qed.
